@@ -123,12 +123,13 @@ func c161(c *an.Ctx, p *an.Prog) {
 				continue
 			}
 			arg := e.Args[0]
-			if arg.Op == "binop" && arg.Aux == "+" && arg.Args[1].IsConst(want) {
-				// stem must be Join(dir, user) with user = checkUserFile#1
-				usesUser := arg.Args[0].Contains(func(t *an.Term) bool {
-					cc, i := t.CallOf()
-					return t.Op == "extract" && cc != nil && cc.K == cuf.K && i == 1
-				})
+			// the path is <dir>/<user><opposite ext>, however composed: Join(dir, user)+ext or Join(dir, user+ext)
+			ps, okPs := strParts(arg)
+			if okPs && len(ps) >= 3 && ps[len(ps)-1].Arg == nil && `"`+ps[len(ps)-1].Lit+`"` == want && ps[len(ps)-2].Arg != nil && ps[len(ps)-3].Arg == nil && strings.HasSuffix(ps[len(ps)-3].Lit, "/") {
+				// file name must be user = checkUserFile#1
+				ut := ps[len(ps)-2].Arg
+				cc, i := ut.CallOf()
+				usesUser := ut.Op == "extract" && cc != nil && cc.K == cuf.K && i == 1
 				for _, a := range s.Atoms {
 					if a.Op == "false" {
 						if cc, i := a.A.CallOf(); cc != nil && cc.K == e.Res.K && i == 0 && usesUser {
@@ -209,8 +210,8 @@ func c162(c *an.Ctx, p *an.Prog) {
 	if need(c, "C16.2", initFn, "store.(*Dir).Init") {
 		n := 0
 		var bad []string
-		for _, ci := range initFn.Blocks {
-			for _, in := range ci.Instrs {
+		for _, in := range an.DeepInstrs(initFn) {
+			{
 				call, ok := in.(ssa.CallInstruction)
 				if !ok {
 					continue
